@@ -146,6 +146,9 @@ def run_z3cli_ematch(obl, budget_s):
             pass
 
 
+GIVE_UP_AFTER = 6
+
+
 def discharge(obls, timeout=20, procs=16, seed=0, on_model=None, use_cvc5=True, retry_timeout=90, progress=None, want_hash=False, hints=None):
     """returns list of Result aligned with obls.  Every obligation has a plan = list of rungs (backend, budget) tried in order until
     one answers sat/unsat: z3 on the ground fragment, z3, cvc5, z3 with the long budget.  `hints` (obligation id -> backend that
@@ -218,6 +221,7 @@ def discharge(obls, timeout=20, procs=16, seed=0, on_model=None, use_cvc5=True, 
         running[r] = (pid, i, time.time(), tmo, backend, b'')
 
     retries = []
+    gave_up = [0]
     while todo or running or retries:
         while todo and len(running) < procs:
             i, tmo, be = todo.pop(0)
@@ -263,9 +267,14 @@ def discharge(obls, timeout=20, procs=16, seed=0, on_model=None, use_cvc5=True, 
                     results[i] = Result(o.id, v, be, spent, out.get('model'), out.get('reason', ''), out.get('rl', 0))
                 else:
                     results[i] = Result(o.id, 'unknown', be, spent, None, out.get('reason', ''), out.get('rl', 0))
-                    if plans[i]:
+                    if plans[i] and (gave_up[0] < GIVE_UP_AFTER or want_hash):
                         nb, nt = plans[i].pop(0)
                         retries.append((i, nt, nb))
+                    elif o.expect == 'unsat':
+                        # the whole ladder was spent on this obligation.  Once several obligations of one function have ended that way
+                        # (the code no longer meets its contract: the verdict is settled), the others get their first rung only -
+                        # a check on changed code must not take an hour to say what it knows after minutes
+                        gave_up[0] += 1
                 if progress:
                     progress(results[i])
         if not todo and not running and retries:
